@@ -5,6 +5,7 @@ package httpserver
 import (
 	"fmt"
 	"math/rand"
+	"net"
 	"strings"
 	"testing"
 
@@ -19,6 +20,23 @@ type c12Probe struct {
 }
 
 func c12Key(q *gReq) string { return q.Host + q.Method + q.Path }
+
+// c12VirtualHosts: 2-4 rules with distinct exact hosts, each with its own rule-level IP
+// filter (different networks), paths with method lists so that 200, 404 and 405 all occur.
+func c12VirtualHosts(rng *rand.Rand) *gSpec {
+	s := &gSpec{}
+	n := 2 + rng.Intn(3)
+	for i := 0; i < n; i++ {
+		f := &gIPF{BlockByDefault: rng.Intn(2) == 0}
+		f.Allow = []string{genNets[(i*3+rng.Intn(3))%len(genNets)]}
+		f.Block = []string{genNets[(i*3+1+rng.Intn(3))%len(genNets)]}
+		s.Rules = append(s.Rules, gRule{Host: genHosts[i%len(genHosts)], IPF: f, Paths: []gPath{
+			{Path: "/a", Methods: []string{"GET", "POST"}, Backend: fmt.Sprintf("be-%d", i)},
+			{Prefix: "/b", Backend: fmt.Sprintf("be-%d", i+10)},
+		}})
+	}
+	return s
+}
 
 func c12Norm(s string) string {
 	return strings.NewReplacer("{", "", "}", "", " ", "", "\x00", "").Replace(s)
@@ -41,7 +59,7 @@ func c12Collisions(rng *rand.Rand) (a, b gReq) {
 func TestVerif_C12_Twin(t *testing.T) {
 	r := kit.Start(t, "C12")
 	defer r.Finish()
-	r.Rule("seeded HTTPServer specs (header-conditioned entries ahead of unconditional ones, method lists, IP filters at server/rule/path level, shadowing duplicates) x cache sizes {1,2,8,64} x sequences of 40 requests from mixed clients drawn from a pool of 10 (so repeats, warm-ups by other clients/headers and evictions occur) plus crafted (host,method,path) concatenation collisions; the same sequence is served by a cache-less twin; distinct = (cache hit?, uncached status, cached-entry kind, ip filters present, headers present, collision?)")
+	r.Rule("seeded HTTPServer specs (header-conditioned entries ahead of unconditional ones, method lists, IP filters at server/rule/path level, shadowing duplicates; one class of virtual-host servers whose rules each carry their own IP filter and produce 200/404/405 per host) x cache sizes {1,2,8,64} x sequences of 40 requests from mixed clients drawn from a pool of 10 (so repeats, warm-ups by other clients/headers and evictions occur) plus crafted (host,method,path) concatenation collisions; the same sequence is served by a cache-less twin; distinct = (cache hit?, uncached status, cached-entry kind, ip filters present, headers present, collision?)")
 	r.Assume("twin with cacheSize 0 is the oracle; both twins see byte-identical requests; cache hits are observed through the ARC cache's Contains on the key the request will use")
 	nSpecs := r.N(1500, 40000)
 	sizes := []int{1, 2, 8, 64}
@@ -51,9 +69,12 @@ func TestVerif_C12_Twin(t *testing.T) {
 			continue
 		}
 		rng := r.CaseRand(i)
-		class := i % 4 // 0: plain, 1: headers, 2: ip filters, 3: both
+		class := i % 5 // 0: plain, 1: headers, 2: ip filters, 3: both, 4: virtual hosts with their own filters
 		o := genOpts{headers: class == 1 || class == 3, ipf: class >= 2, maxRules: 3, maxPaths: 3}
 		spec := genSpec(rng, o)
+		if class == 4 {
+			spec = c12VirtualHosts(rng)
+		}
 		if class == 1 && rng.Intn(2) == 0 {
 			// the shape the property names: header-conditioned entry ahead of an unconditional one
 			p := pick(rng, genPaths)
@@ -76,6 +97,23 @@ func TestVerif_C12_Twin(t *testing.T) {
 		pool := make([]gReq, 0, 12)
 		for k := 0; k < 8; k++ {
 			pool = append(pool, genReq(rng, spec, class >= 2))
+		}
+		if class == 4 {
+			// per virtual host: a routed path, an unknown path (404) and an unlisted method (405),
+			// each requested by several clients, so that negative results are cached for one
+			// host, other hosts are searched in between, and the key is then hit by a client
+			// the host's own filter treats differently
+			pool = pool[:0]
+			for _, r := range spec.Rules {
+				for _, shape := range []gReq{{Method: "GET", Path: "/a"}, {Method: "GET", Path: "/nope"}, {Method: "PATCH", Path: "/a"}} {
+					for n := 0; n < 2; n++ {
+						q := shape
+						q.Host = r.Host
+						q.RemoteAddr = net.JoinHostPort(pick(rng, genClients), "55")
+						pool = append(pool, q)
+					}
+				}
+			}
 		}
 		// same key, other headers / other client
 		for k := 0; k < 2; k++ {
@@ -180,6 +218,7 @@ func TestVerif_C12_Twin(t *testing.T) {
 	r.Require("cache_hits_class_1", 1)
 	r.Require("cache_hits_class_2", 1)
 	r.Require("cache_hits_class_3", 1)
+	r.Require("cache_hits_class_4", 1)
 	r.Require("key_collisions_exercised", 1)
 }
 
